@@ -246,7 +246,7 @@ def generate(sc, lox, mod, cases, timeout=120, prefix="l"):
         open(os.path.join(d, "peek.go"), "w").write(peek)
         open(os.path.join(d, "nopeek.go"), "w").write(nopeek)
         try:
-            p = subprocess.run([lox, d], cwd=mod, env=GOENV, stdout=subprocess.PIPE, stderr=subprocess.PIPE, timeout=timeout)
+            p = subprocess.run([lox] + list(case.get("lox_flags", [])) + [d], cwd=mod, env=GOENV, stdout=subprocess.PIPE, stderr=subprocess.PIPE, timeout=timeout)
             rc, err = p.returncode, p.stderr.decode(errors="replace")
         except subprocess.TimeoutExpired:
             rc, err = -9, "timeout"
